@@ -1578,9 +1578,11 @@ func (m methodSet) equals(n methodSet) bool {
 // Methods returns a map of method type strings, indexed by method names.
 func (t *itype) methods() methodSet {
 	seen := map[*itype]bool{}
-	var getMethods func(typ *itype) methodSet
+	var getMethods func(typ *itype, ptr bool) methodSet
 
-	getMethods = func(typ *itype) methodSet {
+	// ptr is true if typ is reached through a pointer: the methods with a pointer
+	// receiver are then part of the method set.
+	getMethods = func(typ *itype, ptr bool) methodSet {
 		res := make(methodSet)
 
 		if seen[typ] {
@@ -1591,7 +1593,7 @@ func (t *itype) methods() methodSet {
 
 		switch typ.cat {
 		case linkedT:
-			for k, v := range getMethods(typ.val) {
+			for k, v := range getMethods(typ.val, ptr) {
 				res[k] = v
 			}
 		case interfaceT:
@@ -1600,7 +1602,7 @@ func (t *itype) methods() methodSet {
 				if f.typ.cat == funcT {
 					res[f.name] = f.typ.TypeOf().String()
 				} else {
-					for k, v := range getMethods(f.typ) {
+					for k, v := range getMethods(f.typ, ptr) {
 						res[k] = v
 					}
 				}
@@ -1620,7 +1622,7 @@ func (t *itype) methods() methodSet {
 					res[m.Name] = m.Type.String()
 				}
 			}
-			for k, v := range getMethods(typ.val) {
+			for k, v := range getMethods(typ.val, true) {
 				res[k] = v
 			}
 		case structT:
@@ -1628,19 +1630,23 @@ func (t *itype) methods() methodSet {
 				if !f.embed {
 					continue
 				}
-				for k, v := range getMethods(f.typ) {
+				for k, v := range getMethods(f.typ, ptr) {
 					res[k] = v
 				}
 			}
 		}
 		// Get all methods defined on this type.
 		for _, m := range typ.method {
+			if !ptr && typ.cat != ptrT && m.typ.recv != nil && m.typ.recv.cat == ptrT {
+				// A method with a pointer receiver is not in the method set of the value type.
+				continue
+			}
 			res[m.ident] = m.typ.TypeOf().String()
 		}
 		return res
 	}
 
-	return getMethods(t)
+	return getMethods(t, false)
 }
 
 // id returns a unique type identificator string.
